@@ -70,6 +70,19 @@ Theorem inline_walrus_helper_not_inlinable :
 Proof. exact helper_with_walrus_by_name. Qed.
 Print Assumptions inline_walrus_helper_not_inlinable.
 
+(* Whatever goes wrong while a captured callable is turned into a lambda leaves the call by name - the model's
+   [helper_capval] is total.  `def ignore(x): return` (no value: the Lambda has no body node, rewriting it raises) and a
+   helper whose rewriting raises (an enum class attribute that is not a member, ...) are [CFun None]. *)
+Theorem inline_helper_never_raises :
+  forall hce l, helper_capval hce l = CFun None \/ exists l', helper_capval hce l = CFun (Some l').
+Proof. exact helper_capval_total. Qed.
+Print Assumptions inline_helper_never_raises.
+
+Theorem inline_bare_return_helper_not_inlinable :
+  forall hce l, bare_return l = true -> helper_capval hce l = CFun None.
+Proof. exact helper_bare_return_by_name. Qed.
+Print Assumptions inline_bare_return_helper_not_inlinable.
+
 Theorem inline_leaves_walrus_helper_by_name :
   forall ce hce l h args kwn kwv e',
     lookup_var ce h = Some (helper_capval hce l) -> has_walrus l = true ->
@@ -472,3 +485,17 @@ Example method_and_decorated_left_by_name :
                            [Lambda ["j"] (BinOp BAdd (Call (Name "m") [Attr (Name "j") "pt"] [] [])
                                                      (Call (Name "hw") [Attr (Name "j") "pt"] [] []))] [] [])).
 Proof. split; [left; reflexivity | split; [left; reflexivity | split; vm_compute; reflexivity]]. Qed.
+
+(* def ignore(x): return  ;  lambda e: (ignore(e.a), h(e.b))  keeps ignore by name; a helper whose rewriting raises (the
+   attribute table says the lookup crashes: an enum class attribute that is not a member) stays by name as well *)
+Example bare_return_helper_left_by_name :
+  let ignore := Lambda ["x"] (Raw CNone) in
+  let h := Lambda ["a"] (BinOp BAdd (Name "a") (Const (CInt 1))) in
+  let col := CObj "type" "Col#0" in
+  let hce := {| ce_nonlocals := []; ce_globals := [("Col", CVal col)]; ce_attrs := [(col, "__name__", ACrash)] |} in
+  bare_return ignore = true /\ helper_capval (glob []) ignore = CFun None /\
+  helper_capval hce (Lambda ["a"] (Tuple [Name "a"; Attr (Name "Col") "__name__"])) = CFun None /\
+  parse_callable (glob [("ignore", helper_capval (glob []) ignore); ("h", helper_capval (glob []) h)])
+    (Lambda ["e"] (Tuple [Call (Name "ignore") [Attr (Name "e") "a"] [] []; Call (Name "h") [Attr (Name "e") "b"] [] []]))
+  = Ok (Lambda ["e"] (Tuple [Call (Name "ignore") [Attr (Name "e") "a"] [] []; BinOp BAdd (Attr (Name "e") "b") (Const (CInt 1))])).
+Proof. repeat split; vm_compute; reflexivity. Qed.
